@@ -86,6 +86,14 @@ pub fn boundary_values() -> Vec<u64> {
         0x21, 0x40, 0x41, 0x54, 0x33, 0x2843, 0x2b60_3742, 0xc671_706a, 0x0f, 0x3f, 0x4242,
         0x0042_4242, 0x4040, 0x1f * 5 + 0x21, 0x1f * 1000 + 0x21,
     ]);
+    // values that alias a registered type / id modulo 2^8, 2^16 or 2^32 (a truncating cast would
+    // confuse them with DATA / HEADERS / SETTINGS / 0x41 / control / QPACK / 0x54 / known settings)
+    for base in [0x100u64, 0x1_0000, 1 << 32, 1 << 40] {
+        for low in [0x00u64, 0x01, 0x02, 0x03, 0x04, 0x06, 0x07, 0x08, 0x21, 0x33, 0x41, 0x54] {
+            v.push(base + low);
+        }
+    }
+    v.extend([(1u64 << 32) + 0x2b60_3742, (1u64 << 33) + 0xc671_706a, (1u64 << 32) + 0x2843]);
     // a GREASE value of every varint length
     v.extend([
         0x21,
